@@ -542,6 +542,11 @@ type Lemma struct {
 	Trusted  bool
 }
 
+type ImmutableDecl struct {
+	Name  string
+	Props []string
+}
+
 type Axiom struct {
 	Name string
 	Expr *SX
@@ -555,10 +560,11 @@ type ContractSet struct {
 	Axioms    []Axiom
 	Order     []string
 	Guarded   map[string]string // Type.field -> mutex field
+	Immutable []ImmutableDecl
 }
 
 var clauseKW = map[string]bool{"func": true, "assume": true, "pure": true, "pred": true, "axiom": true, "lemma": true, "requires": true,
-	"ensures": true, "loop": true, "property": true, "modifies": true, "ghost": true, "option": true, "at": true, "proof": true, "trusted": true, "induction": true, "guarded": true, "end": true, "assert": true, "use": true, "opaque": true, "macro": true}
+	"ensures": true, "loop": true, "property": true, "modifies": true, "ghost": true, "option": true, "at": true, "proof": true, "trusted": true, "induction": true, "guarded": true, "end": true, "assert": true, "use": true, "opaque": true, "macro": true, "immutable": true}
 
 var labelRe = regexp.MustCompile(`^([A-Za-z_][A-Za-z0-9_\-]*):\s+(.*)$`)
 
@@ -952,6 +958,18 @@ func (cs *ContractSet) parseFile(fname, data string) error {
 				v = fs[1]
 			}
 			cur.Options[fs[0]] = v
+		case "immutable":
+			// immutable <global> property Cxx ...
+			fs := strings.Fields(strings.ReplaceAll(rest, ",", " "))
+			d := ImmutableDecl{Name: fs[0]}
+			for _, f := range fs[1:] {
+				if f != "property" {
+					d.Props = append(d.Props, f)
+				}
+			}
+			cs.Immutable = append(cs.Immutable, d)
+			cs.Order = append(cs.Order, "immutable:"+d.Name)
+			cur, curLemma = nil, nil
 		case "guarded":
 			// guarded Type.field by mu
 			fs := strings.Fields(rest)
